@@ -25,7 +25,7 @@ RULE = ('programs: family K (Conv1d k in 1..12, d in 1..2, s in 1..2, BN on/off,
         'shape, returns the original output shape, exported sizes == summary(); non-trivial = a configuration in which at least one mask '
         'vector is entirely at a "pruned" value; every program is explored under one of four usage protocols (plain / train_net_only() first / '
         'whole observation under no_grad with an extra summary() read after each export / train switches off first), rotating over the programs '
-        '(thorough: all four on G_pit and on K with k <= 4)')
+        '(thorough: all four on the one-stage G_pit programs and on K with k <= 4)')
 ASSUMPTIONS = ['receptive-field / dilation parameters are driven only on Conv1d layers padded as the PIT README prescribes (ConstantPad1d + valid, or padding="same")',
                'feature-mask parameters of frozen maskers ARE driven in the uniform-value sweep (they must have no effect); frozen RF / dilation parameters are not',
                'NaN / inf parameter values are not generated']
@@ -82,7 +82,8 @@ def cases(tier, seed):
             n += 1
     if tier == 'thorough':
         extra = [dict(c, proto=(c['proto'] + j) % len(PROTOS)) for c in out if c.get('kind') != 'twoin'
-                 and (c['prog'].get('family') != 'K' or c['prog']['stages'][-1]['k'] <= 4) for j in (1, 2, 3)]
+                 and ((c['prog'].get('family') == 'K' and c['prog']['stages'][-1]['k'] <= 4)
+                      or (c['prog'].get('family') != 'K' and len(c['prog']['stages']) <= 1)) for j in (1, 2, 3)]
         out += extra
     return out
 
